@@ -7,6 +7,7 @@
 From Coq Require Import List ZArith Bool Arith Permutation Sorted.
 From Shampoo Require Import SplitRecovery SplitRecoveryProofs Blocking Dist DistProofs DistChecker
      Fsdp FsdpProofs FsdpDynProofs FsdpWitness FsdpChecker.
+From Shampoo Require Scalar Optimizer Compose ComposeProofs ComposeFsdp.
 Import ListNotations.
 Open Scope Z_scope.
 
@@ -213,3 +214,34 @@ Theorem C07_rank_shards_read_back :
     map (gather_b delem (writeback delem T (f_blocks (fsdp_init thr merge ms)) vals)) (f_blocks (fsdp_init thr merge ms)) = vals.
 Proof. exact @rank_shards_read_back. Qed.
 Print Assumptions C07_rank_shards_read_back.
+
+(* ---- composition with C01 (ComposeFsdp.v): the per-block computation instantiated with the optimizer model ----------
+   hh = the group's float32 scalars as a function of the step count, ans = the matrix oracle's answers per (block, step).
+   The single-process optimizer on independent tensors is the iteration of Optimizer.group_step over their blocks ... *)
+Theorem C07_ser_run_is_group_step_iteration :
+  forall F (Op : Scalar.ops F) (c : Optimizer.cfg (F:=F)) (delem : F) (hh : Z -> Optimizer.hints (F:=F))
+         (ans : nat -> Z -> list (list (list F))) thr merge shapes T (h : list (pentry F)),
+    let L := ser_blocks thr merge shapes in
+    let dims := ComposeFsdp.dims_of L in
+    let R := ser_run Compose.st_empty delem (Compose.fn_upd Op c dims hh ans) (fun _ q => q) (fun v => v) thr merge shapes T h in
+    Compose.model_run_fn Op c hh ans (length L) (map (ser_entry delem thr merge shapes) h) 0
+                 (Compose.abs_blocks dims (length L) (ser_init_state Compose.st_empty delem thr merge shapes T))
+    = (sstepc R, Compose.abs_blocks dims (length L) R).
+Proof. exact @ComposeFsdp.ser_run_is_group_step_iteration. Qed.
+Print Assumptions C07_ser_run_is_group_step_iteration.
+
+(* ... and so is the sharded rank, over the blocks of its recovered pieces: for every metadata list (shards cut mid-row,
+   empty shards), every history, the FSDP rank's block values, block states and step count are those the documented
+   update rule (C01) produces on the maximal shape-respecting sub-tensors of its shards *)
+Theorem C07_fsdp_rank_is_group_step_iteration :
+  forall F (Op : Scalar.ops F) (c : Optimizer.cfg (F:=F)) (delem : F) (hh : Z -> Optimizer.hints (F:=F))
+         (ans : nat -> Z -> list (list (list F))) thr merge (ms : list meta) T (h : list (pentry F)),
+    1 <= thr -> Forall meta_ok ms -> tensors_ok ms T -> Forall (pentry_ok ms) h ->
+    let L := ser_blocks thr merge (piece_shapes ms) in
+    let dims := ComposeFsdp.dims_of L in
+    let R := fsdp_run Compose.st_empty delem (Compose.fn_upd Op c dims hh ans) (fun _ q => q) (fun v => v) thr merge ms T h in
+    Compose.model_run_fn Op c hh ans (length L) (map (ser_entry delem thr merge (piece_shapes ms)) (map (piece_entry ms) h)) 0
+                 (Compose.abs_blocks dims (length L) (ser_init_state Compose.st_empty delem thr merge (piece_shapes ms) (piece_tensors ms T)))
+    = (sstepc R, Compose.abs_blocks dims (length L) R).
+Proof. exact @ComposeFsdp.fsdp_rank_is_group_step_iteration. Qed.
+Print Assumptions C07_fsdp_rank_is_group_step_iteration.
